@@ -35,6 +35,7 @@ VARIABLES
   lastUse,    \* sid -> time of the last answered check that carried it
   stored,     \* sids under which a SetTokenResponse succeeded
   gone,       \* sids on which a RemoveSession reached the store, or that a faulty store call touched
+  bound,      \* sid -> id-token symbols that a SetTokenResponse stored under it
   attok,      \* access-token symbol -> ground-truth expiry (-1 = the provider did not say)
   chk,        \* check number -> [req, evs] for checks in flight
   br,         \* browser -> [active, authorizeAnswers, okSeen] for C03 flows
@@ -42,7 +43,7 @@ VARIABLES
   drift,      \* Layer-B expectation mismatches (spec drift, not violations)
   fired       \* monitor name -> how often its antecedent was true (anti-vacuity)
 
-vars == <<l, now, sc, flt, logins, presented, consumed, dead, codes, idtok, rtl, latest, lastUse, stored, gone, attok, chk, br, viol, drift, fired>>
+vars == <<l, now, sc, flt, logins, presented, consumed, dead, codes, idtok, rtl, latest, lastUse, stored, gone, bound, attok, chk, br, viol, drift, fired>>
 
 ---------------------------------------------------------------------------
 Put(f, k, v) == [x \in (DOMAIN f) \cup {k} |-> IF x = k THEN v ELSE f[x]]
@@ -110,6 +111,8 @@ C01Causes(n, r) ==
     \cup (IF Len(TokReads(n)) > 0 /\ ~RefreshJustifies(n)
              /\ ~Fresh(TokReads(n)[1].e.res, r.f, TokReads(n)[1].at)
           THEN {"ok-with-expired-tokens"} ELSE {})
+    \cup (IF Len(TokReads(n)) > 0 /\ (~Has(bound, Req(n).cookie) \/ TokReads(n)[1].e.res.id \notin bound[Req(n).cookie])
+          THEN {"ok-with-tokens-never-stored"} ELSE {})
 
 ---------------------------------------------------------------------------
 (* C02 -- only validated IdP tokens are bound and forwarded *)
@@ -148,7 +151,9 @@ ExpectedUpstream(f, T) ==
 
 C02RespCauses(n, r) ==
   IF Outcome(r) # "ok" \/ ~BoundTokens(n).ex THEN {}
-  ELSE IF RangeS(r.upstream) # ExpectedUpstream(r.f, BoundTokens(n)) THEN {"forwarded-not-equal-bound"} ELSE {}
+  ELSE (IF RangeS(r.upstream) # ExpectedUpstream(r.f, BoundTokens(n)) THEN {"forwarded-not-equal-bound"} ELSE {})
+       \* whatever is forwarded must have been stored under the presented session by a SetTokenResponse
+       \cup (IF ~Has(bound, Req(n).cookie) \/ BoundTokens(n).id \notin bound[Req(n).cookie] THEN {"forwarded-token-never-bound"} ELSE {})
 
 ---------------------------------------------------------------------------
 (* C04 -- login-flow binding *)
@@ -212,10 +217,14 @@ C05StoreCauses(n, e) ==
 ---------------------------------------------------------------------------
 (* C09 -- logout is final *)
 
+Recreates(n, e) ==
+  Has(dead, e.sid) /\ e.fault # "before" /\ e.probe.known /\ e.probe.ex
+  /\ e.op \in {"SetTokenResponse", "SetAuthorizationState", "ClearAuthorizationState"}
+
 C09StoreCauses(n, e) ==
-  IF Has(dead, e.sid) /\ e.fault # "before" /\ e.probe.known /\ e.probe.ex
-     /\ e.op \in {"SetTokenResponse", "SetAuthorizationState", "ClearAuthorizationState"}
-  THEN {"session-recreated:" \o e.op \o "@" \o Req(n).kind} ELSE {}
+  (IF Recreates(n, e) THEN {"session-recreated:" \o e.op \o "@" \o Req(n).kind} ELSE {})
+  \* a removal that reports success must have removed
+  \cup (IF e.op = "RemoveSession" /\ ~e.err /\ e.probe.known /\ e.probe.ex THEN {"remove-reported-success-but-session-remains"} ELSE {})
 
 LastStoreIdx(n) == IF Len(StoreEvs(n)) = 0 THEN 0 ELSE StoreEvs(n)[Len(StoreEvs(n))].i
 
@@ -223,12 +232,14 @@ C09RespCauses(n, r) ==
   LET sid == Req(n).cookie
       rm  == SelectSeq(Ops(n, "RemoveSession"), LAMBDA x : x.e.sid = sid)
   IN
-    (IF Outcome(r) = "ok" /\ Has(dead, sid) /\ LastStoreIdx(n) > dead[sid]
-     THEN {"ok-after-logout:" \o (IF RefreshJustifies(n) THEN "refresh" ELSE "read")} ELSE {})
+    (IF Outcome(r) = "ok" /\ Has(dead, sid) /\ LastStoreIdx(n) > dead[sid].i
+     THEN {"ok-after-logout:" \o (IF RefreshJustifies(n) THEN "refresh" ELSE "read-after:" \o dead[sid].by)} ELSE {})
     \cup (IF Req(n).kind = "logout" /\ flt[r.f].logout
           THEN IF \E i \in DOMAIN rm : rm[i].e.err
                THEN (IF Outcome(r) \in {"endsession", "ok"} THEN {"logout-reports-success-despite-store-error"} ELSE {})
                ELSE (IF Outcome(r) # "endsession" \/ r.http # 302 THEN {"logout-answer-not-end-session-redirect"} ELSE {})
+                    \cup (IF ~\E i \in DOMAIN r.setCookie : r.setCookie[i].name = ("own:" \o r.f) /\ r.setCookie[i].deleted
+                          THEN {"logout-does-not-expire-cookie"} ELSE {})
                     \cup (IF sid # "none" /\ (Len(rm) = 0) THEN {"logout-without-remove"} ELSE {})
           ELSE {})
 
@@ -402,7 +413,7 @@ IdpViol(n, e) ==
 Init ==
   /\ l = 1 /\ now = 0 /\ sc = "none"
   /\ flt = <<>> /\ logins = <<>> /\ presented = {} /\ consumed = {} /\ dead = <<>>
-  /\ codes = <<>> /\ idtok = <<>> /\ rtl = <<>> /\ latest = <<>> /\ lastUse = <<>> /\ stored = {} /\ gone = {} /\ attok = <<>>
+  /\ codes = <<>> /\ idtok = <<>> /\ rtl = <<>> /\ latest = <<>> /\ lastUse = <<>> /\ stored = {} /\ gone = {} /\ bound = <<>> /\ attok = <<>>
   /\ chk = <<>> /\ br = <<>> /\ viol = {} /\ drift = {} /\ fired = <<>>
 
 E == Trace[l]
@@ -413,14 +424,14 @@ Reset ==
   /\ flt' = [name \in {E.filters[i].name : i \in DOMAIN E.filters} |->
                (CHOOSE f \in RangeS(E.filters) : f.name = name)]
   /\ logins' = <<>> /\ presented' = {} /\ consumed' = {} /\ dead' = <<>>
-  /\ codes' = <<>> /\ idtok' = <<>> /\ rtl' = <<>> /\ latest' = <<>> /\ lastUse' = <<>> /\ stored' = {} /\ gone' = {} /\ attok' = <<>>
+  /\ codes' = <<>> /\ idtok' = <<>> /\ rtl' = <<>> /\ latest' = <<>> /\ lastUse' = <<>> /\ stored' = {} /\ gone' = {} /\ bound' = <<>> /\ attok' = <<>>
   /\ chk' = <<>> /\ br' = <<>>
   /\ fired' = Bump(fired, "scenarios")
   /\ UNCHANGED <<viol, drift>>
 
 Clock ==
   /\ E.ev = "clock" /\ now' = E.now
-  /\ UNCHANGED <<sc, flt, logins, presented, consumed, dead, codes, idtok, rtl, latest, lastUse, stored, gone, attok, chk, br, viol, drift, fired>>
+  /\ UNCHANGED <<sc, flt, logins, presented, consumed, dead, codes, idtok, rtl, latest, lastUse, stored, gone, bound, attok, chk, br, viol, drift, fired>>
 
 Skip ==
   /\ E.ev \in {"noop", "end", "keyset", "authz"}
@@ -428,13 +439,13 @@ Skip ==
               THEN Put(codes, E.code, [sid |-> E.sid, challenge |-> E.challenge, clientId |-> E.clientId,
                                        redirectUri |-> E.redirectUri, used |-> FALSE])
               ELSE codes
-  /\ UNCHANGED <<now, sc, flt, logins, presented, consumed, dead, idtok, rtl, latest, lastUse, stored, gone, attok, chk, br, viol, drift, fired>>
+  /\ UNCHANGED <<now, sc, flt, logins, presented, consumed, dead, idtok, rtl, latest, lastUse, stored, gone, bound, attok, chk, br, viol, drift, fired>>
 
 ReqEv ==
   /\ E.ev = "req"
   /\ chk' = Put(chk, E.n, [req |-> E, evs |-> <<>>])
   /\ presented' = IF E.cookie = "none" THEN presented ELSE presented \cup {E.cookie}
-  /\ UNCHANGED <<now, sc, flt, logins, consumed, dead, codes, idtok, rtl, latest, lastUse, stored, gone, attok, br, viol, drift, fired>>
+  /\ UNCHANGED <<now, sc, flt, logins, consumed, dead, codes, idtok, rtl, latest, lastUse, stored, gone, bound, attok, br, viol, drift, fired>>
 
 Note(n) == [chk EXCEPT ![n].evs = Append(@, [e |-> E, at |-> now, i |-> l])]
 
@@ -447,9 +458,13 @@ StoreEv ==
   \* the newest refresh token of a family is the last one the service managed to store
   /\ latest' = IF E.op = "SetTokenResponse" /\ E.fault = "none" /\ ~E.err /\ Has(rtl, E.arg.rt)
                THEN Put(latest, rtl[E.arg.rt].family, E.arg.rt) ELSE latest
+  /\ dead' = IF Recreates(E.n, E) /\ dead[E.sid].by = "nothing-recreated-it"
+             THEN [dead EXCEPT ![E.sid].by = E.op \o "@" \o Req(E.n).kind] ELSE dead
+  /\ bound' = IF E.op = "SetTokenResponse" /\ E.fault # "before" /\ E.arg.ex
+              THEN Put(bound, E.sid, (IF Has(bound, E.sid) THEN bound[E.sid] ELSE {}) \cup {E.arg.id}) ELSE bound
   /\ stored' = IF E.op = "SetTokenResponse" /\ E.fault = "none" /\ ~E.err THEN stored \cup {E.sid} ELSE stored
   /\ gone' = IF (E.op = "RemoveSession" /\ E.fault # "before") \/ E.err THEN gone \cup {E.sid} ELSE gone
-  /\ UNCHANGED <<now, sc, flt, logins, presented, consumed, dead, codes, idtok, rtl, lastUse, attok, br, drift>>
+  /\ UNCHANGED <<now, sc, flt, logins, presented, consumed, codes, idtok, rtl, lastUse, attok, br, drift>>
 
 IdpEv ==
   /\ E.ev = "idp"
@@ -462,12 +477,12 @@ IdpEv ==
   /\ attok' = IF E.issued.ex /\ E.issued.at.ex
               THEN Put(attok, E.issued.at.sym, IF E.issued.expiresIn > 0 THEN now + E.issued.expiresIn ELSE -1) ELSE attok
   /\ fired' = Bump(fired, "idp:" \o E.grant \o ":" \o E.answer)
-  /\ UNCHANGED <<now, sc, flt, logins, presented, consumed, dead, codes, latest, lastUse, stored, gone, br, drift>>
+  /\ UNCHANGED <<now, sc, flt, logins, presented, consumed, dead, codes, latest, lastUse, stored, gone, bound, br, drift>>
 
 JwksEv ==
   /\ E.ev = "jwks"
   /\ chk' = Note(E.n)
-  /\ UNCHANGED <<now, sc, flt, logins, presented, consumed, dead, codes, idtok, rtl, latest, lastUse, stored, gone, attok, br, viol, drift, fired>>
+  /\ UNCHANGED <<now, sc, flt, logins, presented, consumed, dead, codes, idtok, rtl, latest, lastUse, stored, gone, bound, attok, br, viol, drift, fired>>
 
 \* the session issued by an authorize answer, if any
 IssuedCookie(r) ==
@@ -492,7 +507,7 @@ RespEv ==
                     ELSE logins
        /\ consumed' = IF o = "app" /\ q.kind = "callback" THEN consumed \cup {q.cookie} ELSE consumed
        /\ dead' = IF q.kind = "logout" /\ o = "endsession" /\ q.cookie # "none" /\ Len(rm) > 0
-                  THEN Put(dead, q.cookie, rm[1].i) ELSE dead
+                  THEN Put(dead, q.cookie, [i |-> rm[1].i, by |-> "nothing-recreated-it"]) ELSE dead
        /\ lastUse' = IF q.cookie # "none" /\ Len(StoreEvs(n)) > 0 THEN Put(lastUse, q.cookie, StoreEvs(n)[Len(StoreEvs(n))].at) ELSE lastUse
        /\ chk' = Del(chk, n)
        /\ br' = IF Has(br, r.b) /\ br[r.b].active
@@ -503,7 +518,7 @@ RespEv ==
                                       Has(dead, q.cookie), "respOnLoggedOutSession"),
                                Len(OkIdpEvs(n)) > 0, "checkWithSuccessfulExchange"),
                         "outcome:" \o o)
-  /\ UNCHANGED <<now, sc, flt, presented, codes, idtok, rtl, latest, stored, gone, attok>>
+  /\ UNCHANGED <<now, sc, flt, presented, codes, idtok, rtl, latest, stored, gone, bound, attok>>
 
 BrowseEv ==
   /\ E.ev = "browse"
@@ -516,7 +531,7 @@ BrowseEv ==
                         (IF E.outcome # "ok" \/ ~(Has(br, E.b) /\ br[E.b].ok) THEN {"login-does-not-end-in-ok:" \o E.outcome} ELSE {})
                         \cup (IF Has(br, E.b) /\ br[E.b].authz > 1 THEN {"more-than-one-pass-through-the-provider"} ELSE {}), 0)
   /\ fired' = Bump(fired, "browse:" \o E.phase)
-  /\ UNCHANGED <<now, sc, flt, logins, presented, consumed, dead, codes, idtok, rtl, latest, lastUse, stored, gone, attok, chk, drift>>
+  /\ UNCHANGED <<now, sc, flt, logins, presented, consumed, dead, codes, idtok, rtl, latest, lastUse, stored, gone, bound, attok, chk, drift>>
 
 Next ==
   /\ l <= Len(Trace)
